@@ -21,8 +21,8 @@ REPO = os.environ.get("VERIF_REPO", "/repo")
 KANI_DIR = os.path.join(VERIF, "kani")
 VERUS_DIR = os.path.join(VERIF, "verus")
 OBL_DIR = os.path.join(VERIF, "obligations")
-EVID_DIR = os.path.join(VERIF, "evidence")
-REPLAY_DIR = os.path.join(VERIF, "replay")
+EVID_DIR = os.environ.get("VERIF_EVID_DIR") or os.path.join(VERIF, "evidence")
+REPLAY_DIR = os.environ.get("VERIF_REPLAY_DIR") or os.path.join(VERIF, "replay")
 KNOWN = os.path.join(VERIF, "KNOWN_FINDINGS.txt")
 
 ENV = dict(os.environ)
